@@ -416,6 +416,12 @@ func (b *builder) genFields(label string, owner string, n int, union, args bool)
 		}
 		if b.c.Defaults && !union && !args && rapid.IntRange(0, 3).Draw(t, label+".def?") == 0 {
 			f.Default = b.genValue(label+".def", f.Type, 2, false)
+			if b.c.GoExec && f.Req == "optional" && f.Default != nil {
+				// Thrift-Go represents an optional field with a default as a plain value whose
+				// "set" state is value != default; the executable spec does not model that convention
+				f.Default = nil
+				b.c.Excluded["optional-with-default(goexec)"]++
+			}
 		}
 		f.Doc = b.doc(label + ".f")
 		f.Ann = b.ann(label + ".f")
